@@ -257,6 +257,12 @@ def handle : List String → String
       if ks.any (· == 0) || ks.length < 2 || ks.length > 32 then "malformed"
       else " | ".intercalate (ks.map (fun k => handleImg cfg cfg2 base os k))
     | _, _ => "malformed"
+  | ["sync", cache, prune, blocks, ops, k] =>
+    -- block files cut back to their last-fsynced length: the store syncs block data before the
+    -- metadata that references it, so nothing the image refers to is lost: same answer
+    match setup cache prune blocks ops, k.toNat? with
+    | some ((cfg, cfg2, _), base, os), some k => if k == 0 then "malformed" else handleImg cfg cfg2 base os k
+    | _, _ => "malformed"
   | ["img2", cache, prune, blocks, ops, k, j] =>
     match setup cache prune blocks ops, k.toNat?, j.toNat? with
     | some ((cfg, cfg2, cfg3), base, os), some k, some j =>
@@ -264,6 +270,7 @@ def handle : List String → String
     | _, _, _ => "malformed"
   | "img" :: _ => "malformed"
   | "torn" :: _ => "malformed"
+  | "sync" :: _ => "malformed"
   | "img2" :: _ => "malformed"
   | "par" :: _ => "malformed"
   | _ => "bad-op"
